@@ -445,6 +445,9 @@ def _in_order_list_parser(ctx, fn, elem_parsers, arg_index=1):
             r = p.outcome[1]
             if isinstance(r, tuple) and r[0] == "call" and mir.method_name(r[1]) == "collect":
                 m_ = r[2][0]
+                if isinstance(m_, tuple) and m_[0] == "call" and mir.method_name(m_[1]) == "map" and m_[2][0] == T("iter", xs, "fwd") and isinstance(m_[2][1], tuple) \
+                        and m_[2][1][0] == "const" and isinstance(m_[2][1][1], tuple) and m_[2][1][1][0] == "fn" and m_[2][1][1][1] in elem_parsers:
+                    return True, None        # .map(parse_elem): the element parser itself is the mapping function
                 if isinstance(m_, tuple) and m_[0] == "call" and mir.method_name(m_[1]) == "map" and m_[2][0] == T("iter", xs, "fwd") and isinstance(m_[2][1], tuple) and m_[2][1][0] == "closure":
                     cps, cb = mir.walk_closure(ctx.body, m_[2][1], param_terms=[T("mapelem", xs)])
                     outs = [q.outcome[1] for q in cps if q.outcome[0] == "return"]
